@@ -2,7 +2,7 @@
    Only ExtrOcamlBasic: bool, option, unit, list, prod, sumbool, sumor map to OCaml's own types
    and andb/orb are inlined; Z, positive, N, nat stay the extracted inductive types. *)
 Require Import ExtrOcamlBasic.
-Require Import RQ.Base RQ.F32 RQ.Rect RQ.Pixel RQ.Surface.
+Require Import RQ.Base RQ.F32 RQ.Rect RQ.Pixel RQ.Surface RQ.Raster RQ.PathF RQ.Shader RQ.Target.
 Extraction Language OCaml.
 Separate Extraction
   Base.wrap32 Base.wrapu32 Base.zrange
@@ -10,4 +10,6 @@ Separate Extraction
   F32.flt F32.fle F32.feq F32.fhalf F32.f255 F32.unit_to_u8 F32.unit_to_u32
   Pixel.blend Pixel.all_modes Pixel.lerp Pixel.over Pixel.over_in Pixel.over_in_in Pixel.alpha_mul Pixel.muldiv255
   Pixel.premultiply Pixel.blend_mask_px Pixel.blend_mask_clip_px Pixel.premul
-  Surface.surface_op Surface.surface_spec_ok.
+  Surface.surface_op Surface.surface_spec_ok
+  Raster.rast_idle Shader.new_linear_gradient Shader.new_radial_gradient Shader.new_two_circle_radial_gradient Shader.new_sweep_gradient
+  Target.dt_new Target.step_op Target.clip_bounds Target.top_clip_mask.
